@@ -1,4 +1,5 @@
 """C13 - any structurally valid model either compiles or is rejected with a diagnosis."""
+import os
 import re
 
 from runner import Part, Violation, sub_seed, run_hypothesis, HarnessError
@@ -108,11 +109,54 @@ def compiles(ctx, arg, rec):
     run_hypothesis(rec, strategy(profile), oracle, n, sub_seed(ctx.seed, PROPERTY, profile, shard))
 
 
+def atheris_part(ctx, arg, rec):
+    """coverage-guided tier (lib/fuzz_c13.py): libFuzzer drives the Hypothesis strategies through fuzz_one_input with the compiler instrumented and running in-process; every
+    violation bucket it reports is replayed here in a pristine forked process before it counts"""
+    import json
+    import shutil
+    import subprocess
+    import sys
+    import tempfile
+
+    from runner import VERIF
+
+    shard, runs, profiles = arg
+    d = tempfile.mkdtemp(prefix="c13fz-")
+    try:
+        env = dict(os.environ, PYTHONHASHSEED="0")
+        cmd = [sys.executable, os.path.join(VERIF, "lib", "fuzz_c13.py"), d, str(sub_seed(ctx.seed, PROPERTY, "atheris", shard) % (1 << 31) or 1), str(runs)] + list(profiles)
+        r = subprocess.run(cmd, env=env, capture_output=True, text=True, timeout=6 * 3600)
+        path = os.path.join(d, "result.json")
+        if not os.path.exists(path):
+            raise HarnessError("atheris target produced no result (exit %s): %s" % (r.returncode, (r.stderr or r.stdout)[-1500:]))
+        with open(path) as f:
+            res = json.load(f)
+        rec.case(res["executions"])
+        rec.cls(*(["atheris-execution"] * 1))
+        rec.classes["atheris-execution"] += res["executions"] - 1
+        for k, n in res["outcomes"].items():
+            rec.classes["atheris-outcome-" + k] += n
+        rec.classes["atheris-known-finding-masked"] += res.get("masked", 0)
+        m = [l for l in (r.stderr or "").splitlines() if "new_units_added" in l]
+        if m:
+            rec.notes.append("atheris shard %d: %d executions, %s" % (shard, res["executions"], m[-1].strip()))
+        if res["executions"] > res.get("seeded", 0):
+            rec.nontriv(["atheris", shard, res["executions"]], sample=dict(kind="atheris", executions=res["executions"], outcomes=res["outcomes"], profiles=res["profiles"]))
+        for key, b in res["buckets"].items():
+            try:
+                rec.check(oracle, b["case"], None)  # pristine forked process
+            except Violation as v:
+                rec.violation(v)
+    finally:
+        shutil.rmtree(d, ignore_errors=True)
+
+
 def parts(ctx):
     q = ctx.quick
     return [Part("wide%02d" % i, compiles, (i, 45 if q else 2000, "wide")) for i in range(12)] + [Part("npu%02d" % i, compiles, (i, 45 if q else 1000, "npu")) for i in range(4)] + [
         Part("reshapes%02d" % i, compiles, (i, 40 if q else 1500, "reshapes")) for i in range(4)] + [Part("corners%02d" % i, compiles, (i, 50 if q else 2000, "corners")) for i in range(4)] + [
-        Part("tall%02d" % i, compiles, (i, 30 if q else 800, "tall")) for i in range(2)] + [Part("fanout%02d" % i, compiles, (i, 40 if q else 1500, "fanout")) for i in range(2)]
+        Part("tall%02d" % i, compiles, (i, 30 if q else 800, "tall")) for i in range(2)] + [
+        Part("atheris%02d" % i, atheris_part, (i, 150 if q else 6000, [["corners"], ["wide", "npu"], ["corners", "tall"], ["cpumix", "reshapes"]][i % 4])) for i in range(2 if q else 16)] + [Part("fanout%02d" % i, compiles, (i, 40 if q else 1500, "fanout")) for i in range(2)]
 
 
 def replay(ctx, case):
